@@ -827,7 +827,10 @@ Proof.
         assert (Ha : 0 <= a < tleafs k) by (pose proof (tleafs_pos h); nia).
         assert (N : ncount (tleafs k + a) = tsize k + ncount a).
         { rewrite (ncount_split k) by lia. f_equal. f_equal. lia. }
-        rewrite E, N. split; [cbn [app]; do 3 f_equal; [lia|lia]|].
+        rewrite E, N.
+        replace (o + tsize k + ncount a) with (o + (tsize k + ncount a)) by lia.
+        replace (l + tleafs k + a) with (l + (tleafs k + a)) by lia.
+        split; [reflexivity|].
         split; [pose proof (tleafs_pos (k - S h)); lia|].
         split; [rewrite (tleafs_mult h k) by lia; lia|lia].
     + destruct (IH m o l ltac:(lia)) as (pre & h & a & q & E & R). exists pre, h, a, q. split; [exact E|exact R].
@@ -843,7 +846,8 @@ Proof.
   destruct (leaf_node_located (n + 1) n ltac:(lia) ltac:(pow_lits; lia) Hc ltac:(lia))
     as (pk & t & ni & E & H0 & Hfl & OkR & R & D).
   destruct (rll_from_node_index_desc (leaf_index_to_node_index n)) as (a' & b' & c' & D' & RN).
-  { rewrite V. fold (ncount n). pose proof (ncount_nonneg n ltac:(lia)). pose proof (ncount_lt64 n Hn). lia. }
+  { rewrite V. fold (ncount n). pose proof (ncount_nonneg n ltac:(lia)). unfold ncount in *.
+    pose proof (count_ones_nonneg n). pow_lits. lia. }
   rewrite D in D'. injection D' as <- <- <-. rewrite RN. rewrite R.
   (* the last tree of forest (n+1) *)
   unfold spec_added_by_append, forest.
@@ -867,15 +871,13 @@ Proof.
   assert (Hroot : ncount a + tsize h < 2 ^ 64).
   { replace (ncount a + tsize h) with (ncount (n + 1)); [exact Hc|].
     replace (n + 1) with (a + tleafs h) by lia.
-    assert (a = 0 \/ tleafs h <= a) as [->|Hge2] by nia.
-    - rewrite Z.add_0_l, ncount_0, ncount_tleafs. lia.
-    - unfold ncount. rewrite tsize_tleafs.
-      assert (C : count_ones (a + tleafs h) = count_ones a + 1).
-      { rewrite Ea. rewrite <- tleafs_S. rewrite !tleafs_pow.
-        assert (2 ^ Z.of_nat h < 2 ^ Z.of_nat (S h)) by (apply pow2_lt; lia).
-        pose proof (pow2_pos (Z.of_nat h) ltac:(lia)).
-        rewrite count_ones_add_high by lia. rewrite count_ones_mul_pow2 by lia. rewrite count_ones_pow2. reflexivity. }
-      rewrite C. lia. }
+    unfold ncount. rewrite tsize_tleafs.
+    assert (C : count_ones (a + tleafs h) = count_ones a + 1).
+    { rewrite Ea. rewrite <- tleafs_S. rewrite !tleafs_pow.
+      assert (2 ^ Z.of_nat h < 2 ^ Z.of_nat (S h)) by (apply pow2_lt; lia).
+      pose proof (pow2_pos (Z.of_nat h) ltac:(lia)).
+      rewrite count_ones_add_high by lia. rewrite count_ones_mul_pow2 by lia. rewrite count_ones_pow2. reflexivity. }
+    rewrite C. lia. }
   rewrite added_loop_upfrom by (rewrite ?X; pow_lits; lia).
   rewrite right_spine_upfrom. rewrite X. reflexivity.
 Qed.
